@@ -6,7 +6,7 @@
 From Coq Require Import List ZArith Bool Lia Permutation.
 From V Require Import Gen.Params Lib.Hex Wire.Varint UFrames.Model UFrames.ProofsBase UFrames.Proofs
   UFrames.ProofsFlight UFrames.ProofsValidate UFrames.ScramModel UFrames.ProofsScram UDial.Retx UDial.ProofsRetx UFrames.OnWire UFrames.ProofsOnWire
-  UPacker.Model.
+  UPacker.Model UPacker.ProofsFlight.
 Import ListNotations.
 Open Scope Z_scope.
 
@@ -42,7 +42,7 @@ Lemma flightLoop_chain fuel : forall c plens i idx off rem,
   rchain off fs /\ Forall range_pos fs /\ total_len fs <= rem.
 Proof.
   induction fuel as [|f IH]; intros c plens i idx off rem Hrem; cbn [flightLoop].
-  - simpl. repeat split; try lia; constructor.
+  - destruct (rem <=? 0); simpl; repeat split; try lia; constructor.
   - destruct (popLoop 4 off rem _) as [[frames off'] rem'] eqn:EP.
     destruct (popLoop_chain _ _ _ _ _ _ _ EP Hrem) as (Hc & Hp & Ho & Hr & Hr0).
     destruct frames as [|fr frs] eqn:EF; [simpl; repeat split; try lia; constructor|]. rewrite <- EF in *.
@@ -54,6 +54,46 @@ Proof.
     specialize (IH c (tl plens) (i + 1) (idx + 1) off' rem' Hr0). cbv zeta in IH. destruct IH as (Hc2 & Hp2 & Ht2).
     subst off'. split; [apply rchain_app; assumption|]. split; [apply Forall_app; split; assumption|].
     rewrite total_len_app. lia.
+Qed.
+
+(* every datagram of the flight has room for at least one CRYPTO byte (what C10's validated
+   budgets provide: the header plus a minimal CRYPTO frame fits the packet's maximum) *)
+Definition room (c : cfg) : Prop :=
+  forall i idx off, 0 <= off ->
+    1 <= maxDataLen off (initialBudget (hdrOf c i) off (c_maxSize c) (planFor (c_plans c) idx) (c_bk c) idx - hdrOf c i).
+
+Definition no_dgerr (dgs : list dgres) : Prop := Forall (fun d => match d with DGErr _ => False | _ => True end) dgs.
+
+(** The flight drains the stream: when no datagram fails and every datagram has room for one
+    CRYPTO byte, the frames popped over the whole flight add up to everything queued — however
+    many datagrams that takes (the fuel of C10's loop, helloLen + 1, never runs out). *)
+Lemma flightLoop_drains fuel : forall c plens i idx off rem,
+  0 <= off -> 0 <= rem -> rem < Z.of_nat fuel -> room c ->
+  no_dgerr (flightLoop fuel c plens i idx off rem) ->
+  total_len (concat (map dg_frames (flightLoop fuel c plens i idx off rem))) = rem.
+Proof.
+  induction fuel as [|f IH]; intros c plens i idx off rem Hoff Hrem Hfuel Hroom Hok; [simpl in Hfuel; lia|].
+  cbn [flightLoop] in *.
+  set (m := initialBudget (hdrOf c i) off (c_maxSize c) (planFor (c_plans c) idx) (c_bk c) idx - hdrOf c i) in *.
+  destruct (popLoop 4 off rem m) as [[frames off'] rem'] eqn:EP.
+  destruct (popLoop_chain _ _ _ _ _ _ _ EP Hrem) as (Hc & Hp & Ho & Hr & Hr0).
+  destruct frames as [|fr frs].
+  - (* nothing popped: the stream is empty, since there was room *)
+    simpl. change 4%nat with (S 3) in EP. rewrite UPacker.ProofsFlight.popLoop_S in EP.
+    destruct (Z.leb_spec rem 0); [lia|].
+    pose proof (Hroom i idx off Hoff) as Hm. fold m in Hm. cbv zeta in EP.
+    destruct (Z.leb_spec (Z.min (maxDataLen off m) rem) 0); [lia|].
+    destruct (popLoop 3 _ _ _) as [[? ?] ?]. discriminate.
+  - assert (Hpos : 0 < total_len (fr :: frs)).
+    { inversion Hp as [|? ? Hfr Hfrs]; subst. unfold range_pos in Hfr. cbn [total_len fold_right]. fold (total_len frs).
+      assert (0 <= total_len frs) by (clear -Hfrs; induction Hfrs as [|x l Hx _ IHl]; simpl; [lia|unfold range_pos in Hx; lia]). lia. }
+    match type of Hok with context [if ?b then _ else _] => destruct b end.
+    { inversion Hok as [|? ? Hd _]; contradiction. }
+    match type of Hok with context [appendInitial ?p ?h ?l ?pl ?u] => destruct (appendInitial p h l pl u) end.
+    { inversion Hok as [|? ? Hd _]; contradiction. }
+    inversion Hok as [|? ? _ Hok']; subst.
+    cbn [map concat dg_frames]. rewrite total_len_app.
+    rewrite (IH c (tl plens) (i + 1) (idx + 1) (off + total_len (fr :: frs)) (rem - total_len (fr :: frs))); try assumption; lia.
 Qed.
 
 Lemma rchain_in N l : forall o, rchain o l -> Forall range_pos l -> 0 <= o -> o + total_len l <= N ->
@@ -77,6 +117,7 @@ Lemma first_flight_on_wire sb hello c plens :
   let fss := map dg_frames (flight c (zlen hello) plens) in
   let E := total_len (concat fss) in
   rchain 0 (concat fss) /\ Forall range_pos (concat fss) /\ Forall (range_in hello) (concat fss) /\ E <= zlen hello /\
+  (no_dgerr (flight c (zlen hello) plens) -> room c -> E = zlen hello) /\
   (forall b, covers b (concat fss) <-> 0 <= b < E) /\
   (forall fs idx bs us, In fs fss -> 0 <= idx ->
      match marshal sb hello false idx fs false bs us with
@@ -86,13 +127,16 @@ Lemma first_flight_on_wire sb hello c plens :
      end).
 Proof.
   intros Hsz Hsb Hbk. cbv zeta. pose proof (zlen_nonneg hello) as Hh0.
-  assert (Efl : flight c (zlen hello) plens = flightLoop maxDatagrams c plens 0 0 0 (zlen hello))
+  assert (Efl : flight c (zlen hello) plens = flightLoop (flightFuel (zlen hello)) c plens 0 0 0 (zlen hello))
     by (unfold flight; destruct (c_bk c); try reflexivity; congruence).
   rewrite Efl.
-  destruct (flightLoop_chain maxDatagrams c plens 0 0 0 (zlen hello) Hh0) as (Hc & Hp & Ht).
-  set (fss := map dg_frames (flightLoop maxDatagrams c plens 0 0 0 (zlen hello))) in *.
+  destruct (flightLoop_chain (flightFuel (zlen hello)) c plens 0 0 0 (zlen hello) Hh0) as (Hc & Hp & Ht).
+  set (fss := map dg_frames (flightLoop (flightFuel (zlen hello)) c plens 0 0 0 (zlen hello))) in *.
   assert (Hin : Forall (range_in hello) (concat fss)) by (apply (rchain_in (zlen hello) _ 0); try assumption; lia).
   split; [assumption|]. split; [assumption|]. split; [assumption|]. split; [assumption|].
+  split.
+  { intros Hok Hroom. unfold fss.
+    apply flightLoop_drains; try assumption; try lia. unfold flightFuel. lia. }
   split; [intros b; rewrite (rchain_covers _ 0 Hc Hp b); lia|].
   intros fs idx bs us Hfs Hidx.
   assert (Hsub : forall r, In r fs -> In r (concat fss)) by (intros r Hr; apply in_concat; exists fs; auto).
@@ -245,6 +289,7 @@ Lemma flight_on_wire_complete sb hello :
      let fss := map dg_frames (flight c (zlen hello) plens) in
      let E := total_len (concat fss) in
      rchain 0 (concat fss) /\ Forall range_pos (concat fss) /\ Forall (range_in hello) (concat fss) /\ E <= zlen hello /\
+     (no_dgerr (flight c (zlen hello) plens) -> room c -> E = zlen hello) /\
      (forall b, covers b (concat fss) <-> 0 <= b < E) /\
      (forall fs idx bs us, In fs fss -> 0 <= idx ->
         match marshal sb hello false idx fs false bs us with
@@ -266,7 +311,6 @@ Lemma flight_on_wire_complete sb hello :
      Forall (rok hello (negb (planned || is_flight sb))) (flat_map snd flight0) ->
      (forall b, 0 <= b < n -> covers b (flat_map snd flight0)) ->
      rrun planned (layout_of sb) (RS flight0 [] []) ops = Some (st', rs) ->
-     existsb is_err rs = false /\
      (forall b, 0 <= b < n -> covers b (all_ranges st')) /\
      (forall pn popped, In (RPkt pn popped) rs -> forall idx ping bs us, 0 <= idx ->
         match marshal sb hello planned idx popped ping bs us with
@@ -301,8 +345,8 @@ Proof.
       [rewrite Hz; lia|exact Em]. }
   split; [|split].
   - intros c plens Hbk.
-    destruct (first_flight_on_wire sb hello c plens Hsz Hsb Hbk) as (H1 & H2 & H3 & H4 & H5 & _).
-    cbv zeta. split; [assumption|]. split; [assumption|]. split; [assumption|]. split; [assumption|]. split; [assumption|].
+    destruct (first_flight_on_wire sb hello c plens Hsz Hsb Hbk) as (H1 & H2 & H3 & H4 & Hdr & H5 & _).
+    cbv zeta. split; [assumption|]. split; [assumption|]. split; [assumption|]. split; [assumption|]. split; [assumption|]. split; [assumption|].
     intros fs idx bs us Hfs Hidx.
     assert (Hsub : forall r, In r fs -> In r (concat (map dg_frames (flight c (zlen hello) plens)))) by (intros r Hr; apply in_concat; exists fs; auto).
     apply Herr; [assumption| |intros _]; rewrite Forall_forall in *; intros r Hr; [apply H3|apply H2]; apply Hsub, Hr.
@@ -317,8 +361,8 @@ Proof.
     destruct (Ht _ Hod) as (H0 & H1 & _). cbn [fst snd] in *. pose proof (zlen_nonneg d).
     split; [unfold range_in; cbn [fst snd]; lia|discriminate].
   - intros planned flight0 n ops st' rs Hfl Hcov Hrun.
-    destruct (flight_stays_covered _ _ _ _ _ _ _ Hcov Hrun) as (He & Hc).
-    split; [assumption|]. split; [assumption|].
+    destruct (flight_stays_covered _ _ _ _ _ _ _ Hcov Hrun) as (_ & Hc).
+    split; [assumption|].
     intros pn popped Hin idx ping bs us Hidx.
     assert (Hst : st_rok hello (negb (planned || is_flight sb)) (RS flight0 [] [])).
     { unfold st_rok, all_ranges. cbn [rOut rQueue rAcked]. rewrite !app_nil_r. exact Hfl. }
@@ -448,3 +492,145 @@ Lemma plan_flight_examples :
   (exists wss, plan_flight (FBFrames [[FCrypto (-3) 0; FCrypto 0 2]; [FCrypto 0 5]; [FCrypto 5 (-3)]]) pl_hello [0] [] [] = Ok (wss, [], [])
                /\ length wss = 3%nat).
 Proof. split; [vm_compute; reflexivity|]. split; [vm_compute; reflexivity|]. eexists. split; [vm_compute; reflexivity|reflexivity]. Qed.
+
+(* non-vacuity of the drain clause: a nil-builder configuration with room, and a 5000-byte
+   ClientHello it sends in five datagrams without error *)
+Definition dr_cfg : cfg :=
+  {| c_dcid := 8; c_scid := 0; c_ipn := 1; c_first := 1; c_lens := []; c_single := 1; c_tokLen := 0;
+     c_bk := BPass; c_plans := []; c_udpMin := 0; c_maxSize := 1280 |}.
+
+Lemma dr_room : room dr_cfg.
+Proof.
+  intros i idx off Hoff.
+  assert (Hh : hdrOf dr_cfg i = 19) by reflexivity. rewrite Hh.
+  assert (Hb : initialBudget 19 off (c_maxSize dr_cfg) (planFor (c_plans dr_cfg) idx) (c_bk dr_cfg) idx = 1264) by reflexivity.
+  rewrite Hb. unfold maxDataLen.
+  assert (Hv : 0 <= vlen off <= 8).
+  { unfold vlen. destruct (off <=? maxVarInt1); [lia|]. destruct (off <=? maxVarInt2); [lia|].
+    destruct (off <=? maxVarInt4); [lia|]. destruct (off <=? maxVarInt8); lia. }
+  destruct (Z.gtb_spec (1 + vlen off + 1) (1264 - 19)); [lia|].
+  destruct (negb (vlen (1264 - 19 - (1 + vlen off + 1)) =? 1)); lia.
+Qed.
+
+Lemma dr_example :
+  room dr_cfg /\ no_dgerr (flight dr_cfg 5000 []) /\
+  length (flight dr_cfg 5000 []) = 5%nat /\
+  total_len (concat (map dg_frames (flight dr_cfg 5000 []))) = 5000.
+Proof.
+  split; [exact dr_room|]. split; [vm_compute; repeat constructor|]. split; vm_compute; reflexivity.
+Qed.
+
+(* ---------- no panic: QUICRandomFlightFrames and planInitialFlight ---------- *)
+Lemma ranges_loop_spec rs : forall p n bs acc,
+  rf_wf p -> 0 <= n < 2 ^ 62 -> pads_ok acc ->
+  match ranges_loop rs p n bs acc with
+  | Ok (fl, _) => pads_ok fl
+  | Err _ => True
+  | Panic => False
+  end.
+Proof.
+  induction rs as [|[off len] rs IH]; intros p n bs acc Hwf Hn Hacc; cbn [ranges_loop]; [assumption|].
+  pose proof (resolve_total off len n ltac:(lia)) as Hres.
+  destruct (resolve off len n) as [[s e]|c|]; cbn [bind]; [|exact I|contradiction].
+  destruct Hres as (Hs & He & _).
+  destruct (Z.leb_spec e s); [apply IH; assumption|].
+  destruct Hwf as (H1 & H2 & H3 & H4 & H5 & H6 & H7).
+  pose proof (split_range_partition s e (Z.max (minCrypto p) 1) (Z.max (maxCrypto p) 1) bs ltac:(lia) ltac:(lia) ltac:(lia) ltac:(lia)) as Hsp.
+  destruct (split_range s e (Z.max (minCrypto p) 1) (Z.max (maxCrypto p) 1) bs) as [[pieces bs']|c|]; cbn [bind]; [|exact I|contradiction].
+  destruct Hsp as (Hch & _). apply IH; [repeat split; assumption|assumption|].
+  unfold pads_ok in *. apply Forall_app. split; [assumption|]. eapply pchain_pads_ok; eassumption.
+Qed.
+
+Lemma pads_ok_pings k : pads_ok (repeat FPing k).
+Proof. unfold pads_ok. apply Forall_forall. intros x Hx. apply repeat_spec in Hx. subst. exact I. Qed.
+
+Lemma only_pads_pads_ok pads : only_pads pads -> pads_ok pads.
+Proof. unfold only_pads, pads_ok. intros H. eapply Forall_impl; [|exact H]. intros [| |]; simpl; tauto. Qed.
+
+Lemma rfd_build_nopanic d full bs us :
+  rf_wf (snd d) -> zlen full < 2 ^ 62 -> rfd_build d full bs us <> Panic.
+Proof.
+  destruct d as [rs p]. cbn [snd]. intros Hwf Hn. unfold rfd_build.
+  destruct (rfd_check rs p) as [[]|c|] eqn:Ec; cbn [bind]; [|discriminate|].
+  2: { unfold rfd_check in Ec. destruct rs; [discriminate|]. repeat (destruct (_ : bool) in Ec; try discriminate). }
+  pose proof (ranges_loop_spec rs p (zlen full) bs [] Hwf ltac:(pose proof (zlen_nonneg full); lia) ltac:(constructor)) as Hrl.
+  destruct (ranges_loop rs p (zlen full) bs []) as [[fl0 bs1]|c|]; cbn [bind]; [|discriminate|contradiction].
+  destruct fl0 as [|f0 fl0]; [discriminate|].
+  destruct Hwf as (H1 & H2 & H3 & H4 & H5 & H6 & H7).
+  pose proof (safe_rand_spec (minPing p) (maxPing p) bs1 H1 ltac:(lia)) as Hr.
+  destruct (safe_rand (minPing p) (maxPing p) bs1) as [[np bs2]|c|]; cbn [bind]; [|discriminate|contradiction].
+  set (fl := (f0 :: fl0) ++ repeat FPing (Z.to_nat np)).
+  assert (Hfl : pads_ok fl) by (unfold fl, pads_ok; apply Forall_app; split; [exact Hrl|apply pads_ok_pings]).
+  pose proof (build_abs_nopanic full fl Hfl) as Hdry.
+  destruct (build_abs full fl) as [dry|c|]; cbn [bind]; [|discriminate|congruence].
+  pose proof (padding_spec p (rfLen p - zlen (encode dry)) bs2 fl H5 H6 ltac:(pose proof (zlen_nonneg (encode dry)); lia)) as Hp.
+  destruct (padding p (rfLen p - zlen (encode dry)) bs2 fl) as [[fl2 bs3]|c|]; cbn [bind]; [|discriminate|contradiction].
+  destruct Hp as (pads & -> & Hpads).
+  pose proof (shuffle_outcome (fl ++ pads) us) as Hs.
+  destruct (shuffle (fl ++ pads) us) as [[fl3 us']|c|]; cbn [bind]; [|discriminate|contradiction].
+  assert (Hfl3 : pads_ok fl3).
+  { unfold pads_ok. eapply Permutation_Forall; [apply Permutation_sym; exact Hs|].
+    apply Forall_app. split; [exact Hfl|apply only_pads_pads_ok; assumption]. }
+  pose proof (build_abs_nopanic full fl3 Hfl3) as Hb.
+  destruct (build_abs full fl3) as [ws|c|]; cbn [bind]; [discriminate|discriminate|congruence].
+Qed.
+
+Lemma rff_loop_nopanic dgs : forall full bs us,
+  Forall (fun d => rf_wf (snd d)) dgs -> zlen full < 2 ^ 62 -> rff_loop dgs full bs us <> Panic.
+Proof.
+  induction dgs as [|d r IH]; intros full bs us Hwf Hn; cbn [rff_loop]; [discriminate|].
+  inversion Hwf as [|? ? Hd Hr]; subst.
+  pose proof (rfd_build_nopanic d full bs us Hd Hn) as H1.
+  destruct (rfd_build d full bs us) as [[[w bs1] us1]|c|]; cbn [bind]; [|discriminate|congruence].
+  pose proof (IH full bs1 us1 Hr Hn) as H2.
+  destruct (rff_loop r full bs1 us1) as [[[ws bs2] us2]|c|]; cbn [bind]; [discriminate|discriminate|congruence].
+Qed.
+
+(* the plan's parameters are in range *)
+Definition fb_ok (fb : fbuilder) : Prop :=
+  match fb with
+  | FBFrames dgs => Forall pads_ok dgs
+  | FBRandom dgs => Forall (fun d => rf_wf (snd d)) dgs
+  end.
+
+Lemma build_flight_nopanic fb hello bs us : fb_ok fb -> zlen hello < 2 ^ 62 -> build_flight fb hello bs us <> Panic.
+Proof.
+  intros Hok Hn. destruct fb as [dgs|dgs]; cbn [build_flight fb_ok] in *.
+  - pose proof (flight_frames_nopanic dgs false hello Hok) as H.
+    destruct (flight_frames dgs false hello); cbn [bind]; [discriminate|discriminate|congruence].
+  - unfold rff_build. destruct dgs as [|d0 r]; [discriminate|]. apply rff_loop_nopanic; assumption.
+Qed.
+
+(** planInitialFlight, for every in-range plan of either flight builder, every ClientHello, every
+    non-empty budget list and both oracles: it never panics; if it accepts, the planned datagrams
+    consist of frames inside the ClientHello with its bytes at absolute offsets and the union of
+    their CRYPTO ranges is exactly [0, |hello|). *)
+Lemma plan_flight_sound fb hello budgets bs us :
+  fb_ok fb -> zlen hello <= 2 ^ 48 -> budgets <> [] ->
+  match plan_flight fb hello budgets bs us with
+  | Ok (wss, _, _) =>
+    Forall (frame_in hello) wss /\
+    (forall j, (exists ws o d, In ws wss /\ In (o, d) (wcryptos ws) /\ o <= j < o + zlen d) <-> 0 <= j < zlen hello)
+  | Err _ => True
+  | Panic => False
+  end.
+Proof.
+  intros Hok H48 Hbud.
+  pose proof (plan_flight_complete fb hello budgets bs us H48) as Hc.
+  destruct (plan_flight fb hello budgets bs us) as [[[wss b1] u1]|c|] eqn:Ep; [destruct Hc as (_ & H1 & H2); auto|exact I|].
+  unfold plan_flight in Ep. destruct (zlen hello =? 0); [discriminate|].
+  pose proof (build_flight_nopanic fb hello bs us Hok ltac:(lia)) as Hnp.
+  destruct (build_flight fb hello bs us) as [[[wss0 b0] u0]|c|] eqn:Eb; cbn [bind] in Ep; [|discriminate|congruence].
+  assert (Htrue : Forall (frame_in hello) wss0).
+  { unfold build_flight in Eb. destruct fb as [dgs|dgs].
+    - apply bind_ok in Eb as (w0 & Hf & Hr). inversion Hr; subst. eapply flight_frames_true; eassumption.
+    - eapply rff_build_true; eassumption. }
+  pose proof (validate_builder_nopanic wss0 hello budgets Hbud H48 Htrue) as Hv.
+  destruct (validate (map encode wss0) budgets (zlen hello) =? 0); [discriminate|].
+  destruct (Z.eqb_spec (validate (map encode wss0) budgets (zlen hello)) (-1)); [congruence|discriminate].
+Qed.
+
+Lemma fb_ok_example :
+  fb_ok (FBRandom [([(-3, 0); (0, 2)], mkRF 0 2 1 3 0 0 0); ([(2, -3)], mkRF 0 0 0 0 0 0 0)]) /\
+  fb_ok (FBFrames [[FCrypto (-3) 0; FPad 2]; [FCrypto 0 (-3); FPing]]).
+Proof. split; repeat constructor; cbn; lia. Qed.
